@@ -274,14 +274,14 @@ def run(ctx):
     quick = ctx.tier == "quick"
     vectors = []
     for fn in (True, False):
-        consts = {"MaxRecs": 2, "MaxL": 4 if quick else 6, "MaxW": 3 if quick else 4, "FinalNL": fn, "BlankEnd": False, "MaxFetch": 1 if quick else 2, "CRLF": False}
+        consts = {"MaxRecs": 2, "MaxL": 4 if quick else 6, "MaxW": 3 if quick else 4, "FinalNL": fn, "BlankEnd": False, "MaxFetch": 1, "CRLF": False}
         invs = ["FetchCorrect" if fn else "FetchCorrectUnlessAtRaggedEnd", "OffsetsAgree", "SeeksItself", "Emit"]
         res = ctx.tlc("MC_C17", tag="MC_C17_%s" % ("nl" if fn else "nonl"), spec="Spec", constants=consts, invariants=invs, coverage=True)
         ctx.require_actions(res, "MC_C17", ["FetchAny", "WholeAny", "Replace"])
         vectors += res.vectors
-    if quick:
-        # batches of two fetches through one handle, smaller files
-        res = ctx.tlc("MC_C17", tag="MC_C17_batch", spec="Spec", constants={"MaxRecs": 2, "MaxL": 3, "MaxW": 2, "FinalNL": True, "BlankEnd": False, "MaxFetch": 2, "CRLF": False},
+    if True:
+        # batches of two fetches through one handle, smaller files (two fetches on the large instances cost 40 minutes of TLC time)
+        res = ctx.tlc("MC_C17", tag="MC_C17_batch", spec="Spec", constants={"MaxRecs": 2, "MaxL": 3 if quick else 4, "MaxW": 2 if quick else 3, "FinalNL": True, "BlankEnd": False, "MaxFetch": 2, "CRLF": False},
                       invariants=["FetchCorrect", "SeeksItself"], keep_vectors=False)
     # the same files with an empty line after the last record
     res = ctx.tlc("MC_C17", tag="MC_C17_blank", spec="Spec", constants={"MaxRecs": 2, "MaxL": 3 if quick else 5, "MaxW": 2 if quick else 3, "FinalNL": True, "BlankEnd": True, "MaxFetch": 1, "CRLF": False},
